@@ -136,8 +136,7 @@ def cycle_case(d, max_proj, stale_satisfy, eigh_mode='contract'):
       if p == 'satisfy':
         kw[p] = bool(int(ctx.integer('stale_satisfy', 0, 1)))
       else:
-        ctx.fail('sliced_step_has_the_expected_interface', detail='unexpected free variable %s' % p)
-        return
+        ctx.mismatch('sliced step: unexpected free variable %s' % p)
     try:
       out = step(**{k: kw[k] for k in params})
     finally:
@@ -218,9 +217,8 @@ def prologue_case(d, npos):
     st = _Self(ctx, 1, 0)
     s._fS1, s._fD1, s._grad_projection = st._fS1, st._fD1, st._grad_projection
     missing = [p for p in params if p not in ('pairs', 'self', 'y')]
-    ctx.require('sliced_prologue_has_the_expected_interface', ctx.cond(not missing), detail=str(missing))
     if missing:
-      return
+      ctx.mismatch('sliced prologue: free variables the harness cannot supply: %s' % missing)
     out = pre(pairs=pairs, self=s, y=y)
     dsum = 0
     for k in range(npos):
@@ -319,9 +317,8 @@ def diag_step_case(d=2):
     try:
       kw = dict(self=s, neg_pairs=None, w=w.copy(), s_sum=ssum, eps=1e-6, num_dim=d, reduction=2.0, it=0, w_previous=None)
       missing = [p for p in params if p not in kw]
-      ctx.require('sliced_step_has_the_expected_interface', ctx.cond(not missing), detail=str(missing))
       if missing:
-        return
+        ctx.mismatch('sliced step: free variables the harness cannot supply: %s' % missing)
       # the inner backtracking loop is unbounded in the source: bound it by the path budget below
       out = step(**{k: kw[k] for k in params})
     finally:
